@@ -41,6 +41,34 @@ func Load(repo string, patterns []string, preludeDir string) (*Engine, error) {
 	if len(pkgs) > 0 {
 		eng.Fset = pkgs[0].Fset
 	}
+	// prelude contract files (assumed contracts of dependencies, shared spec functions)
+	if preludeDir != "" {
+		files, _ := filepath.Glob(filepath.Join(preludeDir, "*.ct"))
+		sort.Strings(files)
+		for _, pf := range files {
+			src, err := os.ReadFile(pf)
+			if err != nil {
+				return nil, err
+			}
+			cf, err := ParseContracts(pf, "", string(src))
+			if err != nil {
+				return nil, err
+			}
+			for _, u := range cf.Units {
+				u.Assumed = true
+			}
+			eng.addContracts(cf)
+		}
+		smts, _ := filepath.Glob(filepath.Join(preludeDir, "*.smt2"))
+		sort.Strings(smts)
+		for _, sf := range smts {
+			src, err := os.ReadFile(sf)
+			if err != nil {
+				return nil, err
+			}
+			eng.Preludes = append(eng.Preludes, string(src))
+		}
+	}
 	for i, sp := range spkgs {
 		if sp == nil {
 			continue
@@ -102,40 +130,24 @@ func Load(repo string, patterns []string, preludeDir string) (*Engine, error) {
 	if depErr != nil {
 		return nil, depErr
 	}
-	// prelude contract files (assumed contracts of dependencies, shared spec functions)
-	if preludeDir != "" {
-		files, _ := filepath.Glob(filepath.Join(preludeDir, "*.ct"))
-		sort.Strings(files)
-		for _, pf := range files {
-			src, err := os.ReadFile(pf)
-			if err != nil {
-				return nil, err
-			}
-			cf, err := ParseContracts(pf, "", string(src))
-			if err != nil {
-				return nil, err
-			}
-			for _, u := range cf.Units {
-				u.Assumed = true
-			}
-			eng.addContracts(cf)
-		}
-		smts, _ := filepath.Glob(filepath.Join(preludeDir, "*.smt2"))
-		sort.Strings(smts)
-		for _, sf := range smts {
-			src, err := os.ReadFile(sf)
-			if err != nil {
-				return nil, err
-			}
-			eng.Preludes = append(eng.Preludes, string(src))
-		}
-	}
 	return eng, nil
 }
 
 func (eng *Engine) addContracts(cf *ContractFile) {
 	for _, u := range cf.Units {
 		u.Name = qualifyUnitName(u.Name, cf.Pkg)
+		// an assumed contract that a package states about a callee of ANOTHER package is local to the units of the
+		// stating package: it must not change how other packages (or the prelude) see that callee
+		if u.Assumed && cf.Pkg != "" && !strings.Contains(u.Name, cf.Pkg+".") {
+			if eng.Local == nil {
+				eng.Local = map[string]map[string]*UnitSpec{}
+			}
+			if eng.Local[cf.Pkg] == nil {
+				eng.Local[cf.Pkg] = map[string]*UnitSpec{}
+			}
+			eng.Local[cf.Pkg][u.Name] = u
+			continue
+		}
 		if old, ok := eng.Contracts[u.Name]; ok && !old.Assumed && u.Assumed {
 			continue // a verified contract wins over an assumed one
 		}
@@ -938,4 +950,16 @@ func (eng *Engine) Anchors(name string) []string {
 		}
 	}
 	return out
+}
+
+// contractFor resolves the contract of a callee for a unit of package pkg: the package's own statement about the
+// callee first, then the callee's contract (its own package's file or the prelude).
+func (eng *Engine) contractFor(name, pkg string) (*UnitSpec, bool) {
+	if l, ok := eng.Local[pkg]; ok {
+		if s, ok := l[name]; ok {
+			return s, true
+		}
+	}
+	s, ok := eng.Contracts[name]
+	return s, ok
 }
